@@ -13,7 +13,9 @@ C01 = ["P01_complete_message_neither_delivered_nor_refused", "P01_nothing_after_
 C02 = ["P02_outcome_independent_of_segmentation"]
 C06 = ["P06_error_status_fits_the_fault", "P06_one_of_400_413_431_501", "P06_parsing_never_raises", "P06_parsing_never_hangs",
        "P06_stops_consuming_within_one_read_after_refusal", "P01_nothing_after_refusal_or_mandatory_close",
-       "P01_delivered_message_is_what_rfc9112_extracts", "P01_connection_closed_after_refusal_or_faulty_framing"]
+       "P01_delivered_message_is_what_rfc9112_extracts", "P01_connection_closed_after_refusal_or_faulty_framing",
+       # "is refused": an oversize / malformed message that is complete by the reference must not be left unanswered
+       "P01_complete_message_neither_delivered_nor_refused"]
 
 
 def segmentations(n, mode, rng):
@@ -21,6 +23,8 @@ def segmentations(n, mode, rng):
     segs = [()]
     if mode == "none" or n <= 1:
         return segs
+    if mode == "pieces":                      # long streams: reads of 7 / 100 / 1000 bytes, none of them the whole stream
+        return segs + [tuple(range(k, n, k)) for k in (7, 100, 1000) if k < n]
     segs.append(tuple(range(1, n)))          # one byte at a time
     if mode == "single":
         for c in range(1, n):
